@@ -456,8 +456,8 @@ H("C18", "matrix_card", "c18_cells", timeout=1800, encodes=["MatrixCard::{get_nu
   bounds="all card shapes up to 255 cells, 1..4 digits", assumes=[], **_MC)
 H("C18", "matrix_card", "c18_from_data", timeout=900, encodes=["MatrixCard::from_data"], inputs="dimensions any, data length <= 64 any",
   asserts="accepted <=> length == digits*width*height", bounds="data <= 64 bytes", assumes=[], **_MC)
-for _n, _b, _tiers in [("c18_coordinates_2x2", "2x2 card, count 1..4, seeds < 2^16", ["quick", "thorough"]), ("c18_coordinates_3x3", "3x3 card, count 1..3, seeds < 2^16", ["quick", "thorough"]),
-                       ("c18_coordinates_8x10", "8x10 card, count 1..2, seeds < 2^16", ["quick", "thorough"]), ("c18_coordinates_2x2_u64", "2x2 card, count 1..4, all 64-bit seeds", ["thorough"])]:
+for _n, _b, _tiers in [("c18_coordinates_2x2", "2x2 card, counts 1..4 (enumerated), all 64-bit seeds", ["quick", "thorough"]), ("c18_coordinates_3x3", "3x3 card, counts 1..3 (enumerated), all 64-bit seeds", ["quick", "thorough"]),
+                       ("c18_coordinates_8x10", "8x10 card, counts 1..2 (enumerated), all 64-bit seeds", ["quick", "thorough"]), ("c18_coordinates_3x3_full", "3x3 card, count 9 (every cell challenged), all 64-bit seeds", ["thorough"])]:
     H("C18", "matrix_card", _n, timeout=3600, tiers=_tiers, oracle_features=["cap64", "q4"], encodes=["matrix_card::generate_coordinates", "MatrixCardVerifier::get_matrix_coordinates"],
       inputs="challenge count, seed, two rounds 0..=255: any", asserts="round < count: Some(x<w, y<h), distinct rounds give distinct cells; otherwise None, no panic",
       bounds=_b, assumes=["verifier built directly from generate_coordinates (MD5/RC4 key schedule skipped)"], **_MC)
@@ -561,3 +561,9 @@ for _k, _v in _LT.items():
     if _k in PROPERTIES:
         PROPERTIES[_k]["level_text"] = _v
 PROPERTIES["C19"] = {"not_applicable": "the srp-fast-math configuration is rug -> GMP (C code behind FFI): Kani cannot execute it symbolically, and gmp-mpfr-sys cannot even be built in this sandbox (no m4); comparing the two cfg arms against each other's contract would say nothing about GMP itself"}
+H("C01", "client", "c01_client_s_to_k", timeout=3600, oracle_features=["cap192", "q16", "b16"], encodes=["SrpClientChallenge::new", "calculate_client_S", "calculate_interleaved", "SKey::as_equal_slice"],
+  inputs="U, P (<= 4 bytes), announced g and N' != 0, valid B, salt: any; a = RNG draw; x, u, A, M1 uninterpreted", asserts="client K == SHA_Interleave(pad32((B - 3*g^x)^(a + u*x) mod N')) for every non-zero S incl. high/low zero bytes",
+  bounds="real S computation and real interleave in one harness", assumes=[HASH_ASSUME, BIG_ASSUME, STUB_ASSUME])
+H("C01", "srp_internal", "c01_server_s_to_k", timeout=3600, oracle_features=["cap128", "q16", "b8"], encodes=["calculate_session_key", "calculate_S", "calculate_interleaved"],
+  inputs="A, B valid, v, b any; u uninterpreted", asserts="server K == SHA_Interleave(pad32((A * v^u)^b mod N)) for every non-zero S",
+  bounds="real S computation and real interleave in one harness", assumes=[HASH_ASSUME, BIG_ASSUME])
